@@ -336,6 +336,34 @@ theorem C15_effective_cookie_prefix (node opt : Nat) : acceptorCookieOld node op
   unfold acceptorCookieOld acceptCookie acceptorFieldOld
   by_cases h : opt = 0 <;> simp [h]
 
+/-- **Acceptor cookie over time, full statement**: after any sequence of `Acceptor.SetCookie` calls the
+    next handshake uses the cookie set last. -/
+def C15_acceptor_setcookie_full : Prop :=
+  ∀ (node opt : Nat) (sets : List Nat), node ≠ 0 →
+    handshakeCookie node (sets.foldl setCookie (startAcc node opt)) =
+      wantedCookie node (sets.foldl setCookie (startAcc node opt))
+
+/-- refuted by the current code (finding D10b): the accept loop keeps the options it was started with -/
+theorem C15_acceptor_setcookie_counterexample : ¬ C15_acceptor_setcookie_full := by
+  intro h
+  have := h 1 0 [2] (by decide)
+  revert this; decide
+
+/-- what the code does instead, for every history: `SetCookie` never changes the cookie handshakes are
+    checked against (it stays the one of C15_effective_cookie), it only changes what `Cookie()` reports;
+    the two agree as long as `SetCookie` is not used -/
+theorem C15_acceptor_setcookie_partial (node opt : Nat) (sets : List Nat) :
+    handshakeCookie node (sets.foldl setCookie (startAcc node opt)) = acceptorCookie node opt ∧
+    (sets = [] → handshakeCookie node (startAcc node opt) = wantedCookie node (startAcc node opt)) := by
+  constructor
+  · have hinv : ∀ (l : List Nat) (s : AccState), (l.foldl setCookie s).hopts = s.hopts := by
+      intro l
+      induction l with
+      | nil => intro s; rfl
+      | cons a l ih2 => intro s; simp [List.foldl_cons, ih2, setCookie]
+    simp [handshakeCookie, hinv, startAcc, acceptorCookie]
+  · intro _; rfl
+
 /-- **Connection between two nodes**: node X dials with route cookie option `r`, node Y's acceptor was
     started with cookie option `a`; they get connected iff the effective cookies coincide (names differ). -/
 theorem C15_connect (iX iY : Info) (nodeX nodeY r a : Nat) (hX : nodeX ≠ 0) (hY : nodeY ≠ 0)
